@@ -500,3 +500,35 @@ def foreign_sync_family(rng):
     body = ["spawn", leaf, [], ["spawn", caller, [["own", 0]],
             ["yld", rng.choice([["f", ["own", 1]], ["tup", ["f", ["own", 1]], ["f", ["own", 0]]]]), ["active", ["ret", 6]], ["active", ["ret", 7]]]]]
     return {"cfg": {"kinds": {}, "salt": rng.randrange(1000000)}, "profile": "foreign-sync", "tops": [[rng.choice(["value", "call"]), body], ["value", ["active", ["ret", 0]]]]}
+
+
+def shared_override_family(rng):
+    """one pending task S (holding its own override of the value across two suspensions) is awaited by two tasks X and Y
+    that override the same value differently; siblings read the value between the suspensions: save/restore must use the
+    value in force at each resume, not the one at entry (C07)"""
+    var = rng.randrange(2)
+    k = rng.randrange(2)
+    s_body = ["with", ["override", var, 5],
+              ["item", k, 1, "ok", ["yld", ["f", ["own", 0]], ["read", var,
+               ["item", k, 2, "ok", ["yld", ["f", ["own", 1]], ["read", var, ["endwith"]], ["reraise"]]]], ["reraise"]]],
+              ["read", var, ["ret", 1]]]
+
+    def awaiter(val, extra_item):
+        inner = ["yld", ["f", ["inh", 0]], ["read", var, ["endwith"]], ["reraise"]]
+        if extra_item:
+            inner = ["item", k, 7, "ok", ["yld", ["f", ["own", 0]], ["read", var, inner], ["reraise"]]]
+        return ["with", ["override", var, val], inner, ["read", var, ["ret", 2]]]
+
+    def reader(seed):
+        return ["read", var, ["item", k, seed, "ok", ["yld", ["f", ["own", 0]], ["read", var,
+                ["item", k, seed + 1, "ok", ["yld", ["f", ["own", 1]], ["read", var, ["ret", 3]], ["reraise"]]]], ["reraise"]]]]
+
+    kids = [awaiter(10, rng.random() < 0.5), awaiter(20, rng.random() < 0.5)] + [reader(3 + 2 * i) for i in range(rng.randint(1, 2))]
+    order = list(range(len(kids)))
+    rng.shuffle(order)
+    # own 0 = S; the others are spawned with S handed over
+    body = ["yld", [rng.choice(["tup", "lst"])] + [["f", ["own", 1 + i]] for i in order], ["read", var, ["ret", 9]], ["reraise"]]
+    for kid in reversed(kids):
+        body = ["spawn", kid, [["own", 0]], body]
+    body = ["spawn", s_body, [], body]
+    return {"cfg": {"kinds": {}, "salt": rng.randrange(1000000)}, "profile": "shared-override", "tops": [["value", body]]}
